@@ -265,6 +265,15 @@ static int64_t extent_of(const PPaths& pp) {
   double e = std::max((double)hx - (double)lx, (double)hy - (double)ly); return e > 9e18 ? INT64_MAX / 2 : std::max<int64_t>(1, std::max(hx - lx, hy - ly));
 }
 
+// Minkowski: pattern and path. The work is pattern x path quadrilaterals and their union; a large size class gives a pattern
+// of up to 40 points and a circle of up to 3000 (tens of thousands of quadrilaterals, two of them active per scanline: linear).
+static void mink_inputs(Rng& r, const Frame& f, int maxpts, PPaths& pp) {
+  Frame pf{0, 0, std::max<int64_t>(1, std::min<int64_t>(f.ext, r.range(1, 50))), 1};
+  if (maxpts >= 1500) { pp.push_back(gen_base(r, pf, 13, 40)); pp.push_back(gen_base(r, f, 13, 3000)); }
+  else if (maxpts > 100) { pp.push_back(gen_base(r, pf, (int)r.below(7), 8)); pp.push_back(gen_base(r, f, 13, 400)); }
+  else { pp.push_back(gen_base(r, pf, (int)r.below(7), std::min(maxpts, 8))); pp.push_back(gen_base(r, f, (int)r.below(7), std::min(maxpts, 24))); }
+}
+
 // One entry-point exercise appended to plan as ops of `task` using object slots starting at slot0.
 // kind selects the entry class; returns number of slots used.
 static int append_entry(Rng& r, Plan& pl, int kind, int task, int slot0, const std::string& cfg, bool z, int maxpaths, int maxpts, int shared_cont_slot) {
@@ -404,8 +413,7 @@ static int append_entry(Rng& r, Plan& pl, int kind, int task, int slot0, const s
       MagClass mc = pick_mag(r, cfg, false);
       int64_t m = std::max<int64_t>(2, mc.mag / 2);           // pattern + path must stay inside the class
       Frame f = make_frame(r, m); PPaths pp;
-      pp.push_back(gen_base(r, Frame{0, 0, std::max<int64_t>(1, std::min<int64_t>(f.ext, r.range(1, 50))), 1}, (int)r.below(7), std::min(maxpts, 8)));
-      pp.push_back(gen_base(r, f, (int)r.below(7), std::min(maxpts, 24)));
+      mink_inputs(r, f, maxpts, pp);
       for (PPath& p : pp) { for (PPt& q : p) { q.x = std::max(-m, std::min(m, q.x)); q.y = std::max(-m, std::min(m, q.y)); } add_z(r, p, z); }
       if (r.chance(0.1)) pp[r.below(2)].clear();
       if (r.chance(0.6)) { Op o = mkop("mink64", task); o.i = {(int64_t)r.below(2), (int64_t)r.below(2)}; setP(o, 0, pp); push(o); }
@@ -468,8 +476,7 @@ static int append_entry(Rng& r, Plan& pl, int kind, int task, int slot0, const s
       return 0; }
     case 14: {  // C export: Minkowski
       MagClass mc = pick_mag(r, cfg, false); int64_t m = std::max<int64_t>(2, mc.mag / 2); Frame f = make_frame(r, m); PPaths pp;
-      pp.push_back(gen_base(r, Frame{0, 0, std::max<int64_t>(1, std::min<int64_t>(f.ext, r.range(1, 50))), 1}, (int)r.below(7), std::min(maxpts, 8)));
-      pp.push_back(gen_base(r, f, (int)r.below(7), std::min(maxpts, 24)));
+      mink_inputs(r, f, maxpts, pp);
       for (PPath& p : pp) { for (PPt& q : p) { q.x = std::max(-m, std::min(m, q.x)); q.y = std::max(-m, std::min(m, q.y)); } add_z(r, p, z); }
       Op o = mkop("x_mink64", task); o.i = {(int64_t)r.below(2), (int64_t)r.below(2), (int64_t)(r.chance(0.1) ? r.below(4) : 0)}; setP(o, 0, pp); push(o); return 0; }
     case 16: {  // open-path clipping: open subjects and closed clips drawn in one (often lattice) frame, all output kinds
@@ -852,7 +859,8 @@ Plan gen_c14(uint64_t seed, uint64_t run, const std::string& cfg) {
     for (int k = 0; k < nops; ++k) {
       int kind = common >= 0 && g.chance(0.8) ? common : (int)g.below(N_ENTRY_KINDS);
       if (shared >= 0 && g.chance(0.4)) kind = (int)g.below(2);
-      bool big = g.chance(0.05); int bigpts = 120; if (big && g.chance(0.12)) bigpts = (g.chance(0.75) || cfg[0] == 'T') ? 1500 : 3500;     // (TSan builds: a 3500-point case takes tens of seconds)
+      bool big = g.chance(0.05) && !(cfg[0] == 'T' && (kind == 8 || kind == 14));   // (a large Minkowski sum takes a minute under TSan)
+      int bigpts = 120; if (big && g.chance(0.12)) bigpts = (g.chance(0.75) || cfg[0] == 'T') ? 1500 : 3500;     // (TSan builds: a 3500-point case takes tens of seconds)
       // builds without UBSan (P*, T*) also get tasks with huge coordinates (boolean clipping only): state that the library
       // writes only for extreme input is then written while other tasks are in flight
       bool huge = (cfg[0] == 'P' || cfg[0] == 'T') && (kind <= 1 || kind == 3 || kind == 11 || kind == 16) && g.chance(0.15);
